@@ -13,7 +13,12 @@
 #include <janet.h>
 #include <signal.h>
 #include <string.h>
+#include <errno.h>
+#include <stdio.h>
 #include <sys/time.h>
+#include <sys/resource.h>
+#include <sys/wait.h>
+#include <unistd.h>
 
 static JanetVM *g_vm = NULL;
 static volatile sig_atomic_t g_armed = 0;
@@ -68,8 +73,48 @@ static Janet c10_resume(int32_t argc, Janet *argv) {
     return janet_wrap_tuple(janet_tuple_n(tup, 3));
 }
 
+/* (c10/fork-call f cpu-seconds) runs (f) in a forked child whose CPU time is limited with
+ * RLIMIT_CPU and waits for it. Used for operations that run inside C code and therefore cannot be
+ * interrupted (peg/match on a grammar that loops). The child leaves with _exit((f) & 63).
+ * Returns [:exit code] | [:signal number] (SIGXCPU = CPU limit reached). */
+static Janet c10_fork_call(int32_t argc, Janet *argv) {
+    janet_fixarity(argc, 2);
+    JanetFunction *f = janet_getfunction(argv, 0);
+    int32_t secs = janet_getinteger(argv, 1);
+    if (secs < 1) secs = 1;
+    fflush(NULL);
+    pid_t pid = fork();
+    if (pid < 0) janet_panic("fork failed");
+    if (pid == 0) {
+        struct rlimit rl;
+        rl.rlim_cur = (rlim_t) secs;
+        rl.rlim_max = (rlim_t) secs + 1;
+        setrlimit(RLIMIT_CPU, &rl);
+        Janet out = janet_wrap_nil();
+        JanetFiber *fiber = NULL;
+        JanetSignal sig = janet_pcall(f, 0, NULL, &out, &fiber);
+        int code = 0;
+        if (sig == JANET_SIGNAL_OK && janet_checkint(out)) code = janet_unwrap_integer(out) & 63;
+        _exit(code);
+    }
+    int status = 0;
+    while (waitpid(pid, &status, 0) < 0) {
+        if (errno != EINTR) janet_panic("waitpid failed");
+    }
+    Janet tup[2];
+    if (WIFEXITED(status)) {
+        tup[0] = janet_ckeywordv("exit");
+        tup[1] = janet_wrap_integer(WEXITSTATUS(status));
+    } else {
+        tup[0] = janet_ckeywordv("signal");
+        tup[1] = janet_wrap_integer(WIFSIGNALED(status) ? WTERMSIG(status) : -1);
+    }
+    return janet_wrap_tuple(janet_tuple_n(tup, 2));
+}
+
 static const JanetReg cfuns[] = {
     {"c10/resume", c10_resume, "(c10/resume fiber value ms)\n\nResume a fiber under a CPU-time budget."},
+    {"c10/fork-call", c10_fork_call, "(c10/fork-call f cpu-seconds)\n\nRun (f) in a CPU-limited forked child."},
     {NULL, NULL, NULL}
 };
 
